@@ -211,7 +211,7 @@ class Lines:
                     ok = bool(exp[1](out))
                 except Exception:
                     ok = False
-                expd = "<dense entry>"
+                expd = "<dense entry>" if not getattr(exp[1], "bad", None) else "mismatch in " + ",".join(exp[1].bad)
             else:
                 ok = out == exp
                 expd = exp
